@@ -433,7 +433,10 @@ namespace pika {
           : callback_(std::forward<CB>(cb))
           , state_(st.state_)
         {
-            if (state_) state_->add_callback(this);
+            // If the callback could not be registered (stop was already requested: it has
+            // been invoked above; or no stop can be requested any more) there is nothing to
+            // deregister: the destructor must not wait for it.
+            if (state_ && !state_->add_callback(this)) state_.reset();
         }
 
         template <typename CB,
@@ -444,7 +447,10 @@ namespace pika {
           : callback_(std::forward<CB>(cb))
           , state_(std::move(st.state_))
         {
-            if (state_) state_->add_callback(this);
+            // If the callback could not be registered (stop was already requested: it has
+            // been invoked above; or no stop can be requested any more) there is nothing to
+            // deregister: the destructor must not wait for it.
+            if (state_ && !state_->add_callback(this)) state_.reset();
         }
 
         // Effects: Unregisters the callback from the owned stop state, if any.
